@@ -17,18 +17,18 @@ def isPermIdx (inp out : List SMsg) : Bool :=
 def recvMonotone : List SMsg → Bool
   | a :: b :: t => a.recv ≤ b.recv && recvMonotone (b :: t)
   | _ => true
-def indexIncreasing : List SMsg → Bool
-  | a :: b :: t => a.index < b.index && indexIncreasing (b :: t)
+def seqIncreasing : List SMsg → Bool
+  | a :: b :: t => a.seq < b.seq && seqIncreasing (b :: t)
   | _ => true
 def delayBounded (table : List (Nat × Nat)) (minDelay : Nat) (ms : List SMsg) : Bool :=
   ms.all fun m => m.recv - calcTime table m ≤ minDelay
 def keyLe (table : List (Nat × Nat)) (a b : SMsg) : Bool :=
-  calcTime table a < calcTime table b || (calcTime table a == calcTime table b && a.index ≤ b.index)
+  calcTime table a < calcTime table b || (calcTime table a == calcTime table b && a.seq ≤ b.seq)
 def sortedByCalc (table : List (Nat × Nat)) : List SMsg → Bool
   | a :: b :: t => keyLe table a b && sortedByCalc table (b :: t)
   | _ => true
 /-- the hypothesis of the ordering part -/
 def orderingInRange (table : List (Nat × Nat)) (minDelay : Nat) (ms : List SMsg) : Bool :=
-  recvMonotone ms && indexIncreasing ms && delayBounded table minDelay ms
+  recvMonotone ms && seqIncreasing ms && delayBounded table minDelay ms
 end Spec
 end Srt
